@@ -127,6 +127,62 @@ CHECKS = {
              "name a date in the suffix period.",
         note="Continuations contain no CAPRETURN/ACCUMULATION (excluded by the property).",
         ref="DESIGN.md §3 C12"),
+    "C08": dict(
+        technique="runtime monitor: differential oracle on converted figures (independent parse of the bundled HMRC XML), "
+                  "literal pre-converted twins, missing-rate error observation, rate-folder configurations at the loader "
+                  "and through the real CLI",
+        text="Foreign-currency ledgers over every code of the bundled table (price and fees may differ in currency, dates "
+             "straddling month ends) are compared with the exact model run on independently converted amounts and with "
+             "literal GBP twins; absent rates (gap month 2015-12, before/after the table, code outside the table, no "
+             "table) must yield MissingFxRate naming the currency and the transaction's own month; generated rate folders "
+             "(override, add month, mislabelled, non-positive, empty) are loaded at the library boundary and through "
+             "--fx-folder and every lookup around an override is checked for locality; the whole bundled table is compared key by key.",
+        note="Where the bundled data lists one currency twice in a month with different rates (XCD 2015-04) either rate is "
+             "accepted. Two folder files for one month are not generated (precedence not in the property). MCP get_fx_rate "
+             "is compared with the table by C20.",
+        ref="DESIGN.md §3 C08"),
+    "C13": dict(
+        technique="runtime monitor: parser observed on enumerated and generated lexical variants rendered by an independent "
+                  "renderer that knows the expected list; one-token corruptions with expected error line",
+        text="Complete enumeration of single-transaction files over the variations the statement names (3,384 files), "
+             "~10k random multi-line files of all seven kinds with random combinations of blank/comment lines, trailing "
+             "comments, wide spacing, keyword/currency/ticker case, LF/CRLF/CR and missing final newline, and ~16k "
+             "one-token corruptions (garbage keyword/number/date/currency, calendar-invalid date, signed or doubly-dotted "
+             "number, deleted required token, duplicated clause, stray token) whose error must point at the corrupted line; "
+             "sample through `cgt-tool parse`.",
+        note="Grammar leniencies (keyword glued to ticker, leading whitespace) are not treated as corruptions.",
+        ref="DESIGN.md §3 C13, §4 F7"),
+    "C14": dict(
+        technique="runtime monitor: identity oracles on to_dsl/parse and to_json/from_json round trips and on reports of the "
+                  "three renderings (library and CLI)",
+        text="Random lists of all seven kinds with decimal literals of every scale 0-28 (incl. 2^96-1, trailing zeros, "
+             "1e-28), every currency code the tool knows, keyword-/number-/currency-looking tickers and years 0001-9999 "
+             "must survive DSL and JSON round trips field by field (mantissa and scale), writing must be idempotent, and "
+             "report(structs) == report(DSL rendering) == report(JSON rendering) bit-exactly; CLI report/parse on the renderings.",
+        note="Only a zero FEES/TAX may lose its currency label (and scale). MCP parse/convert/calculate legs are in C20.",
+        ref="DESIGN.md §3 C14"),
+    "C18": dict(
+        technique="runtime monitor: row-accounting oracle (independent expected-lines model) over converter output re-read by "
+                  "the real parser; metamorphic row-order and chunking comparisons; CLI convert|parse|report",
+        text="Generated Schwab exports (all supported and several unsupported actions, Schwab amount/date spellings, "
+             "duplicates, cancels, hostile free text incl. line breaks and DSL-looking text, awards files) are converted and "
+             "the emitted DSL parsed back: each Buy/Sell/RSU row must appear exactly once with its symbol/quantity/price/fees, "
+             "cancels remove exactly one identical sell, dividend and same-day withholding totals per (date, symbol) are kept, "
+             "every other row is counted/surfaced, no transaction without a row, dates non-decreasing; reversed/shuffled row "
+             "order gives the same multiset; date-disjoint chunks reported together equal the whole.",
+        note="Open finding F17 (withholding row with blank Symbol dropped silently; pinned by a repository test). Symbols are "
+             "alphanumeric and quantities/prices non-negative, as the property restricts.",
+        ref="DESIGN.md §3 C18, §4 F10/F11"),
+    "C19": dict(
+        technique="runtime monitor with an exhaustive sub-space: emitted BUY date/price compared with an independent award-"
+                  "selection model",
+        text="All 4,096 two-entry awards files on the grid gap x competitor gap in [-3,12] x price-field class x 4 boundary "
+             "deposit dates, plus ~2.4k random awards files (1-5 entries, mixed-case symbols, non-vesting noise, entries after "
+             "or >7 days before the deposit, no file): the BUY must be dated/priced from the exact-date entry or the nearest "
+             "earlier one within 7 days, vest-specific value over fallback, and otherwise conversion must fail with "
+             "MissingFairMarketValue naming symbol and date.",
+        note="Two entries offering one date: either value accepted (cross-entry precedence is not specified).",
+        ref="DESIGN.md §3 C19"),
 }
 
 NOT_YET = {}
